@@ -4,6 +4,8 @@ import json, os, subprocess
 ROOT = os.path.dirname(os.path.dirname(os.path.abspath(__file__)))
 TECH = "symbolic evaluation of the real Python source (own AST->z3 evaluator py2smt) + SMT (z3 5.1; cvc5/z3-4.8 cross-check in thorough tier), counterexamples replayed on the real code"
 CLAIMED = {
+    "C11": ("2. C11", "Report-to-message mappings of CAM and VAM (fullfill_with_tpv_data, every subset of optional report keys, all binary64 values in the property's ranges) decided in QF_BVFP against (1) the constraints of the repository's own compiled ASN.1 type tree, leaf by leaf, and (2) an independently typed mapping table (scaled truncation inside the representable range, the data element's outOfRange / unavailable code outside, 'unavailable' defaults for absent keys, generationDeltaTime); the complete CAM handed to the coder by _generate_and_send_cam (LF container with path history, special vehicle and extension containers, all roles / station types / container schedules); cluster information and operation containers in every clustering state; DENM built from a DEN request (unknown / missing members) and the emergency-vehicle event position; receiver-side reconstruction of the absolute generation time for every generation time and every age 0..65 s.",
+            "UPER bit packing itself is outside (every counterexample and every witness is pushed through the real coder encode->decode in the replay); dateutil parsing is a stub returning an arbitrary binary64; path history limited to two earlier points; VAM motion-prediction and path-history containers of the device data provider are not covered."),
     "C17": ("2. C17", "Repetition loop of the DEN service: bounded unrolling (interval 100..10000 ms, duration <= K intervals, unwinding assertion) with a virtual clock advanced by time.sleep: DENM k handed over iff k*i < T (ceil(T/i) messages) exactly k*i ms after the first, each to port 2002 / BTP-B / geo-broadcast circle centred on the (signed) event position with the coder output as payload, same actionId and station id in every repetition, non-decreasing reference times; one loop iteration from an arbitrary accumulated time under the invariant time = sent*interval plus the arithmetic exit lemma (any number of repetitions); three consecutive events (two repeated, one collision-risk warning) from an arbitrary service counter: different sequence numbers across events, equal within; received DENM stored in the LDM at its event position with its content; two overlapping emergency-vehicle events keep their own event position.",
             "Coder is a stub returning fresh symbolic octets / an arbitrary decoded structure (UPER itself is outside; replays use the real DENM coder); the repetition thread start is checked only as 'one request per trigger'; cadence is in virtual time (sleep durations), not wall-clock jitter."),
     "C10": ("2. C10", "One T_CheckCamGen evaluation of the CA service from an arbitrary state under the invariant (T_GenCam 100..1000, counter 0..2, times <= now): never below T_GenCamMin, CAM when T_GenCam elapsed, CAM at the first check >= 100 ms after a heading (wrap-aware) / position / speed change, LF container iff first or >= 500 ms, state/invariant preserved, failed send leaves the state, CAM built from the cached report; timer loop always re-arms 100 ms while active (also after an exception), start/stop; generationDeltaTime = ITS time mod 65536 for every millisecond-aligned report time 2004-2040 in an error-bounded model of binary64; VAM: one report against an arbitrary state (first VAM, T_GenVamMin, T_GenVam, suppression when passive/idle, LF container iff first / 2 s).",
